@@ -29,6 +29,7 @@ pub const ECN: u32 = 1 << 17; // number of errors on a failed parse is zero or (
 pub const CON: u32 = 1 << 18; // ParseResult contract (has_output / has_errors / into_result) violated
 pub const LAZ: u32 = 1 << 19; // lazy(): accepts iff the grammar matches a prefix, with that prefix's output
 pub const DIF: u32 = 1 << 20; // differential pair disagrees
+pub const EMF: u32 = 1 << 21; // emissions preceding the failure of a backtracking-free (straight-line) grammar
 
 pub const CAT_NAMES: &[(&str, u32)] = &[
     ("accept", ACC),
@@ -52,6 +53,7 @@ pub const CAT_NAMES: &[(&str, u32)] = &[
     ("result_contract", CON),
     ("lazy_prefix", LAZ),
     ("pair_differs", DIF),
+    ("emissions_before_failure", EMF),
 ];
 
 pub fn cat_names(mask: u32) -> Vec<&'static str> {
@@ -367,6 +369,14 @@ pub fn compare(kind: EK, obs: &RawObs, m: &Outcome, len: usize) -> u32 {
                     mask |= cmp_err(kind, e, p, false);
                 }
             }
+            // A grammar without any backtracking construct never rewinds, so everything emitted before
+            // the failure is still reported (in order, before the primary error).
+            if m.straight_line && !obs.errs.is_empty() {
+                let em = &obs.errs[..obs.errs.len() - 1];
+                if em.len() != m.emitted.len() || em.iter().zip(m.emitted.iter()).any(|(e, me)| cmp_err(kind, e, me, true) != 0) {
+                    mask |= EMF;
+                }
+            }
         }
         _ => unreachable!(),
     }
@@ -428,6 +438,8 @@ pub struct Job<'j> {
     pub lazy: bool,
     /// differential mode: `grammars[2k]` and `grammars[2k+1]` must behave identically under `pair_mode`
     pub pair_mode: Option<PairMode>,
+    /// build every combinator through its own `Clone` impl (interp::CLONE_MODE)
+    pub clone_mode: bool,
 }
 
 #[derive(Clone, Copy, Debug, PartialEq, Eq)]
@@ -596,6 +608,7 @@ pub fn run_generic<'a, I: InK<'a>, C: Cfg<'a, I>>(
     unrender: &dyn Fn(char) -> char,
     acc: &mut Acc,
 ) {
+    CLONE_MODE.with(|c| c.set(job.clone_mode));
     if let Some(mode) = job.pair_mode {
         return run_pairs::<I, C>(job, mode, mk, buf, norm, unrender, acc);
     }
@@ -715,7 +728,12 @@ fn run_pairs<'a, I: InK<'a>, C: Cfg<'a, I>>(
         }
         (job.progress)(pi);
         let (ga, gb) = (&job.grammars[2 * pi], &job.grammars[2 * pi + 1]);
-        let (Some(pa), Some(pb)) = (try_build::<I, C>(ga, job, acc), try_build::<I, C>(gb, job, acc)) else {
+        // in clone mode the first member is built plainly and the second through Clone
+        CLONE_MODE.with(|c| c.set(false));
+        let pa = try_build::<I, C>(ga, job, acc);
+        CLONE_MODE.with(|c| c.set(job.clone_mode));
+        let pb = try_build::<I, C>(gb, job, acc);
+        let (Some(pa), Some(pb)) = (pa, pb) else {
             pi += job.stride;
             continue;
         };
